@@ -455,3 +455,35 @@ package mocker
 //@   assigns everything
 //@   invariant loop 1 children: m != nil && (forall k string :: visited(k) ==> mocker_cancelled[iter_value(k)]) && (forall k string :: iterating(k) ==> iter_value(k) != nil)
 //@   ensures every_method_mocker_cancelled: forall k string :: old(has(m.mockers, k)) ==> mocker_cancelled[old(m.mockers[k])]
+
+// ---- cached mockers: every child owns its state ---------------------------------------------------------------------------
+// A cached struct mocker hands out one child per method name.  A child is either the one cached before or a new
+// one whose baseMocker (guard slot, When configuration) was allocated for it: two children never share the slot
+// that Reset/Cancel walks (otherwise the guard of the first applied method is overwritten and never restored).
+//@ func (m *CachedMethodMocker) ExportMethod
+//@   props C02 C12
+//@   safety off
+//@   requires receiver: m != nil && m.MethodMocker != nil && m.MethodMocker.baseMocker != nil && m.umCache != nil
+//@   assigns everything
+//@   ensures cached_under_its_name: has(m.umCache, name) && m.umCache[name] == result
+//@   ensures reused_or_owns_fresh_state: (old(has(m.umCache, name)) && result == old(m.umCache[name]))
+//@     | || (typeof(result) == typeid(*UnexportedMethodMocker) && unbox(result, *UnexportedMethodMocker) != nil && fresh(unbox(result, *UnexportedMethodMocker).baseMocker))
+//@   panics_only_if empty_name: true
+
+//@ func (m *CachedMethodMocker) Method
+//@   props C02 C12
+//@   safety off
+//@   requires receiver: m != nil && m.MethodMocker != nil && m.mCache != nil
+//@   assigns everything
+//@   ensures reused_or_owns_fresh_state: (old(has(m.mCache, name)) && iface_of(old(m.mCache[name])) == result)
+//@     | || (typeof(result) == typeid(*MethodMocker) && unbox(result, *MethodMocker) != nil && fresh(unbox(result, *MethodMocker).baseMocker))
+//@   panics_only_if empty_name: true
+
+// Builder.Interface rebuilds the cached interface mocker exactly when its shared context was cancelled
+//@ func (m *CachedInterfaceMocker) Canceled
+//@   props C12 C07 C02
+//@   requires receiver: m != nil && m.ctx != nil && m.ctx.p != nil
+//@   assigns nothing
+//@   ensures follows_the_shared_context: result == m.ctx.p.canceled
+//@ extern func (github.com/tencent/goom.UnExportedMocker).Canceled
+//@   assigns nothing
